@@ -95,7 +95,12 @@ type progOpts struct {
 	jsSafe     bool // stay inside the subset both backends define (C04)
 	taint      bool
 	directives bool
+	msgPO      bool // C11: messages come from progMsgHook (PO-representable shapes), and are frequent
 }
+
+// progMsgHook, when set (by a property's tagged file) and progOpts.msgPO is on,
+// generates the {msg} commands; the default generator below is used otherwise.
+var progMsgHook func(g *progGen, env genv, d int) string
 
 type progGen struct {
 	r     *hx.Rand
@@ -425,6 +430,10 @@ func (g *progGen) block(env genv, d int, n int) string {
 	var sb strings.Builder
 	var pendingLets []gvar
 	for i := 0; i < n; i++ {
+		if g.o.msgPO && g.r.Chance(30) {
+			sb.WriteString(g.msg(env, d))
+			continue
+		}
 		c := g.r.Intn(24)
 		switch {
 		case c < 4:
@@ -566,6 +575,9 @@ func (g *progGen) block(env genv, d int, n int) string {
 
 func (g *progGen) msg(env genv, d int) string {
 	g.feat("msg")
+	if g.o.msgPO && progMsgHook != nil {
+		return progMsgHook(g, env, d)
+	}
 	var sb strings.Builder
 	sb.WriteString("{msg desc=\"" + g.r.Pick([]string{"d", "a message", ""}) + "\"")
 	if g.r.Chance(20) {
